@@ -190,6 +190,12 @@ def run_history(case):
                 elif b['sender'] == 'forged':
                     others = [clients[x].name for x in live if x != ci] + [':1.4242']
                     f[7] = others[b['to'] % len(others)]
+                elif b['sender'] == 'forged-wk':
+                    # a well-known name, preferably one the originator itself owns or is waiting for
+                    mine = [n for n in WK if owner.get(n) == ci or ci in waiting.get(n, [])]
+                    f[7] = (mine or WK)[b['to'] % len(mine or WK)]
+                elif b['sender'] == 'forged-bus':
+                    f[7] = BUS
                 c.serial += 1
                 serial = c.serial
                 flags = (1 if b.get('no_reply') else 0) | (2 if b.get('no_auto') else 0)
@@ -340,7 +346,7 @@ def classify(case):
         elif op[0] == 'burst':
             labels.append('burst%d' % len(op[1]))
             for b in op[1]:
-                if b['sender'] == 'forged' and nlive >= 3:
+                if b['sender'].startswith('forged') and nlive >= 3:
                     nt = True
                     labels.append('forged_sender_3clients')
                 if b['dest'] == 'wk' and owner_changed:
@@ -363,7 +369,7 @@ def burst_msg(draw):
         m['sig'], m['trees'] = draw(S.typed_values(max_types=3, depth=2))
     return {'from': draw(st.integers(0, 3)), 'to': draw(st.integers(0, 5)),
             'dest': draw(st.sampled_from(['unique', 'unique', 'unique', 'wk', 'wk', 'bus', 'dead', 'none', 'none'])),
-            'sender': draw(st.sampled_from(['absent', 'true', 'forged', 'forged'])), 'msg': m,
+            'sender': draw(st.sampled_from(['absent', 'true', 'forged', 'forged', 'forged-wk', 'forged-wk', 'forged-bus'])), 'msg': m,
             'little': draw(st.booleans()), 'no_reply': draw(st.integers(0, 3)) == 0, 'no_auto': draw(st.integers(0, 3)) == 0}
 
 
@@ -425,6 +431,13 @@ def enum_fixed(tier):
     for closing in (['disown', 0, 0], ['disconnect', 0]):
         yield {'nclients': 3, 'rules': [{}],
                'ops': [['own', 0, 0], ['wait', 1, 0], ['burst', [uc], [[0, 0]]], closing, ['burst', [uc], [[0, 0]]]]}
+    # the owner of a name and a client waiting for it both write that name into the sender field
+    for frm in (0, 1):
+        for t in (1, 2, 3, 4):
+            fm = dict(call, type=t)
+            forged = {'from': frm, 'to': 2, 'dest': 'unique', 'sender': 'forged-wk', 'msg': fm, 'little': True,
+                      'no_reply': False, 'no_auto': False}
+            yield {'nclients': 3, 'rules': [{}], 'ops': [['own', 0, 0], ['wait', 1, 0], ['burst', [forged], [[0, 0]]]]}
 
 
 SUBCHECKS = [
